@@ -14,7 +14,7 @@ RULE = ("each case builds one real body (RigidBody with random SPD inertia, Box/
 ASSUMPTIONS = ["T-oracle: central differences with two Richardson levels along s -> (t+s, q+s*q_dot(t,q,u), u+s*u_dot); "
                "violation iff error > 1e-6*max(1,|D|) + 20*oracle uncertainty; noisy oracle => case undecided",
                "frames are given their exact first and second time derivatives (closed form), as the property requires"]
-REQUIRED_MONITORS = ["T:v_P", "T:a_P", "W:J_P", "EQ:kappa_P", "T:B_Omega", "T:B_Psi", "D:partials", "EQ:quaternion_length", "EQ:gyroscopic_power", "EQ:mass_matrix"]
+REQUIRED_MONITORS = ["T:v_P", "T:a_P", "W:J_P", "EQ:kappa_P", "T:B_Omega", "T:B_Psi", "D:partials", "EQ:quaternion_length", "EQ:gyroscopic_power", "EQ:mass_matrix", "EQ:representation"]
 META = {
     "level_text": "Exploration: all kinematic methods of the real RigidBody / PointMass / Frame (and meshed wrappers) are evaluated at seeded hostile states and decided by time-derivative (T), velocity-Jacobian (W) and finite-difference (D) oracles. Held on the states generated.",
     "level_note": "float64; finite-difference oracles with measured uncertainty (noisy comparisons are undecided, not held); frames supplied with exact derivatives.",
@@ -113,6 +113,18 @@ def _kinematics(ctx, body, t, q, u, u_dot, B, label, has_q=True):
     ev = np.linalg.eigvalsh(0.5 * (M + M.T))
     if np.abs(M - M.T).max() > 1e-12 * np.abs(M).max() or ev.min() <= 0:
         ctx.violation(f"{label}.M", "mass matrix is not symmetric positive definite", {**ex, "min_eig": ev.min()})
+    # ---- the same state handed over as strided / negatively strided / read-only arrays, the time as numpy scalar / 0-d array
+    from vlib.oracles import representation_check
+    t_ = float(t)
+    calls = [(f"{label}.{nm}", getattr(body, nm), a, k) for nm, a, k in (
+        ("r_OP", (t_, q), kw), ("v_P", (t_, q, u), kw), ("a_P", (t_, q, u, u_dot), kw), ("J_P", (t_, q), kw), ("r_OP_q", (t_, q), kw),
+        ("v_P_q", (t_, q, u), kw), ("kappa_P", (t_, q, u), kw), ("A_IB", (t_, q), {}), ("A_IB_q", (t_, q), {}), ("B_Omega", (t_, q, u), {}),
+        ("B_Psi", (t_, q, u, u_dot), {}), ("q_dot", (t_, q, u), {}), ("h", (t_, q, u), {}), ("h_u", (t_, q, u), {}), ("B_J_R", (t_, q), {}))
+        if hasattr(body, nm)]
+    calls.append((f"{label}.M", lambda t__, q__: dense(body.M(t__, q__)), (t_, q), {}))
+    calls.append((f"{label}.r_OP[offset]", lambda B__: body.r_OP(t_, q, B_r_CP=B__), (np.array(B, dtype=float),), {}))
+    calls.append((f"{label}.v_P[offset]", lambda B__: body.v_P(t_, q, u, B_r_CP=B__), (np.array(B, dtype=float),), {}))
+    representation_check(ctx, calls, mon="EQ:representation", scalars=True)
     if hasattr(body, "E_kin"):
         ctx.mon("EQ:E_kin")
         E = body.E_kin(t, q, u)
